@@ -57,6 +57,8 @@ package main
 
 import (
 	"go/ast"
+	"go/parser"
+	"go/token"
 	"path/filepath"
 	"strings"
 )
@@ -78,6 +80,16 @@ type spCallee struct {
 	recv string // the struct type of the method ("" for a package-level function)
 	name string
 	ro   []int // positions of slice parameters the callee does NOT write (trusted)
+	// sig: for a function that has NO declaration in the repository (standard library, possibly generic: `slices.Sort`) the
+	// declaration the topic uses it at, e.g. "func Sort(x []int32)" — the instantiation of the type parameters is part of
+	// the table; a call at another type fails the argument type check.  TRUSTED: the text matches the library.
+	sig string
+	// logcb (code_cblift.go): the callee has ONE parameter of function type without results; it is not translated as a
+	// state-passing callee but as the function that returns the LOG of its callback calls (`Q_G : A… → Res (List (T…))`),
+	// to be instantiated by the translation of the callee of the fourth part.  TRUSTED (to be read off the callee): it
+	// writes none of its arguments itself, and the slice argument of a callback call is a window of its argument `win`.
+	logcb bool
+	win   int
 }
 
 // spTopics: the opaque state-passing callees per topic.
@@ -122,9 +134,11 @@ func (k spKey) goName() string {
 }
 
 type spInfo struct {
-	key spKey
-	fd  *ast.FuncDecl
-	ro  map[int]bool
+	key   spKey
+	fd    *ast.FuncDecl
+	ro    map[int]bool
+	logcb bool // code_cblift.go
+	win   int
 }
 
 // registerSP (translateTopics): the opaque state-passing callees of the topics of this package.
@@ -138,13 +152,22 @@ func (c *codegen) registerSP(topics []topic) {
 			if c.spOf[k] != nil {
 				continue
 			}
-			info := &spInfo{key: k, ro: map[int]bool{}}
+			info := &spInfo{key: k, ro: map[int]bool{}, logcb: s.logcb, win: s.win}
 			for _, i := range s.ro {
 				info.ro[i] = true
 			}
 			if s.recv != "" {
 				info.fd = c.fns[fnKey{s.recv, s.name}]
 				c.mutates[fnKey{s.recv, s.name}] = true
+			} else if s.sig != "" {
+				// code_osap.go (computeEdges): the declaration comes from the table
+				if f, err := parser.ParseFile(token.NewFileSet(), "", "package "+s.pkg+"\n"+s.sig+" {}\n", 0); err == nil {
+					for _, d := range f.Decls {
+						if fd, ok := d.(*ast.FuncDecl); ok && fd.Name.Name == s.name {
+							info.fd = fd
+						}
+					}
+				}
 			} else if repoDir != "" {
 				sp := load(filepath.Join(repoDir, s.pkg))
 				info.fd = sp.funcs()[fnKey{"", s.name}]
@@ -162,6 +185,11 @@ type spSig struct {
 	variadic bool // the last parameter is `...E` (ps[last] is List E)
 	rs       []gtype
 	ptrRes   bool // a result of pointer type was dropped
+	// code_cblift.go: the callee's callback calls are logged — the types of the callback's parameters, the position of the
+	// callback among the Go parameters, the type of a log entry
+	cb     []gtype
+	cbPos  int
+	cbType gtype
 }
 
 func (c *codegen) spType(k spKey, at ast.Node) spSig {
@@ -202,6 +230,13 @@ func (c *codegen) spType(k spKey, at ast.Node) spSig {
 				}
 				t = gtype{kind: kSlice, elem: &et}
 				sig.variadic = true
+			} else if ft, isFn := p.Type.(*ast.FuncType); isFn && info.logcb && sig.cb == nil && len(p.Names) <= 1 {
+				// code_cblift.go: the logged callback
+				sig.cbType = c.callbackType(ft, at)
+				sig.cb = c.cbTypes[sig.cbType.name]
+				sig.cbPos = pos
+				pos++
+				continue
 			} else {
 				t = c.typeOf(p.Type, at)
 				_, ptr := p.Type.(*ast.StarExpr)
@@ -221,7 +256,7 @@ func (c *codegen) spType(k spKey, at ast.Node) spSig {
 			}
 			for i := 0; i < n; i++ {
 				sig.ps = append(sig.ps, t)
-				sig.inout = append(sig.inout, io && !info.ro[pos])
+				sig.inout = append(sig.inout, io && !info.ro[pos] && !info.logcb)
 				pos++
 			}
 		}
@@ -249,6 +284,9 @@ func (c *codegen) spType(k spKey, at ast.Node) spSig {
 }
 
 func (s spSig) comps() []gtype {
+	if s.cb != nil { // code_cblift.go: the log
+		return []gtype{s.cbType}
+	}
 	var comps []gtype
 	if s.recv != nil {
 		comps = append(comps, *s.recv)
